@@ -94,7 +94,10 @@ def processLogonR (env : Env) (m : Msg) : R Unit := do
         if n ≥ c.sess.nextIn then do
           let e ← R.liftE (m.get tEncryptMethod)
           let h ← R.liftE (m.get tHeartBtInt)
-          sendMsgR env (Msg.mk' mLogon [(tEncryptMethod, e), (tHeartBtInt, h)])
+          -- fix a9dbd9f: a reply that cannot be sent drops the connection, then the error goes on
+          R.tryCatch (sendMsgR env (Msg.mk' mLogon [(tEncryptMethod, e), (tHeartBtInt, h)])) fun ex => do
+            disconnectR env st_DISCONNECTED_BROKEN_CONN none
+            R.throw ex
         else pure ()
         pure false
     else pure false
